@@ -16,8 +16,13 @@ pub fn stop_case(epochs: usize, tol: usize, with_validation: bool) -> Case {
 /// objective) included, where `a - b` is NaN although `a` and `b` compare fine. NaN losses are outside the claim: "strictly
 /// increased" is not defined for them.
 pub fn stop_case_th(epochs: usize, tol: usize, with_validation: bool, th: Th) -> Case {
+    stop_case_print(epochs, tol, with_validation, th, None)
+}
+
+/// `print`: the progress-printing interval handed to `learn` — it must not influence what is returned
+pub fn stop_case_print(epochs: usize, tol: usize, with_validation: bool, th: Th, print: Option<i32>) -> Case {
     Case {
-        id: format!("C13/epochs{}/tolerance{}/{}{}", epochs, tol, if with_validation { "validation" } else { "no-validation" }, if th == Th::Fp { "/floats-incl-inf" } else { "" }),
+        id: format!("C13/epochs{}/tolerance{}/{}{}{}", epochs, tol, if with_validation { "validation" } else { "no-validation" }, if th == Th::Fp { "/floats-incl-inf" } else { "" }, match print { Some(p) => format!("/print{}", p), None => String::new() }),
         property: "C13",
         family: "Network::learn (early stopping)",
         class: if with_validation { "validation".into() } else { "no-validation".into() },
@@ -44,9 +49,9 @@ pub fn stop_case_th(epochs: usize, tol: usize, with_validation: bool, th: Th) ->
             hooks::set_update_stub(Some(Box::new(|_, _, _, _, _, _| {})));
             let r = ctx.catch(|_| {
                 if with_validation {
-                    net.learn(&xr, &tr, Some((&xr, &tr, tol as i32)), 1, epochs as i32, None)
+                    net.learn(&xr, &tr, Some((&xr, &tr, tol as i32)), 1, epochs as i32, print)
                 } else {
-                    net.learn(&xr, &tr, None, 1, epochs as i32, None)
+                    net.learn(&xr, &tr, None, 1, epochs as i32, print)
                 }
             });
             hooks::set_validate_stub(None);
@@ -117,6 +122,11 @@ pub fn cases(tier: Tier, _seed: u64) -> Vec<Case> {
         }
         out.push(stop_case(e, 2, false));
     }
+    // a progress-printing interval (every 2nd / 5th epoch, or never within the budget) changes nothing
+    for (e, tol, p) in if full { vec![(5usize, 2usize, 2i32), (5, 2, 5), (6, 3, 4), (6, 3, 100), (4, 1, 3), (3, 2, 1)] } else { vec![(5, 2, 5), (6, 3, 4), (4, 2, 100)] } {
+        out.push(stop_case_print(e, tol, true, Th::Real, Some(p)));
+    }
+    out.push(stop_case_print(3, 2, false, Th::Real, Some(2)));
     // the same contract over Float32 trajectories including +inf / -inf
     for (e, tol) in if full { vec![(4usize, 2usize), (5, 2), (5, 3), (6, 3), (6, 4), (3, 1)] } else { vec![(4, 2), (5, 3), (3, 1)] } {
         out.push(stop_case_th(e, tol, true, Th::Fp));
